@@ -32,6 +32,7 @@ type World struct {
 	allFuncs    map[*ssa.Function]bool
 	nonNilGlobals map[*ssa.Global]bool
 	globalInits   map[*ssa.Global]ssa.Value
+	ghostVars     map[string]Sort
 }
 
 func (W *World) contractError(cl *Clause, err error) {
@@ -108,6 +109,11 @@ func LoadWorld(repo string, patterns []string) (*World, error) {
 					W.lemmas = append(W.lemmas, c)
 				case "ghostfn":
 					W.ghostFns[c.Name] = c
+				case "ghostvar":
+					if W.ghostVars == nil {
+						W.ghostVars = map[string]Sort{}
+					}
+					W.ghostVars[c.Name] = c.RetSort
 				default:
 					if _, dup := W.contracts[c.Key()]; dup {
 						return nil, fmt.Errorf("%s:%d: duplicate contract for %s", c.File, c.Line, c.Key())
